@@ -9,7 +9,7 @@ from automata.fa.nfa import NFA
 
 RULE = ("random pairs of valid NFAs over a common alphabet (1-5 states, epsilon edges/cycles, nondeterminism) plus pairs "
         "built to be equivalent (an NFA vs its epsilon-eliminated form, vs the NFA view of its determinisation, vs its "
-        "double reversal) and near-equivalent (one final flag flipped); ==, != in both argument orders compared with "
+        "double reversal) and near-equivalent (one final flag flipped), and ultimately periodic 'lasso' pairs (periods 2 vs 3, a cycle vs its unrolling, one flag changed); ==, != in both argument orders compared with "
         "the proved comparator; additionally == is compared with DFA equality of the determinisations. distinct = "
         "canonical pair; non-trivial = both languages non-empty and the operands are not literally identical")
 
@@ -68,6 +68,10 @@ def run(ctx):
         adef = gen.rand_nfa_def(rng, nmax=5, alphabet=sigma)
         a = mk_nfa(adef)
         r = rng.random()
+        if i % 3 == 0:
+            for _ in range(4):
+                x, y, tag = gen.lasso_pair(rng, rng.choice(["a", "a", "ab"]))
+                check_pair(ctx, mk_nfa(x), mk_nfa(y), tag)
         if r < 0.4:
             check_pair(ctx, a, mk_nfa(gen.rand_nfa_def(rng, nmax=5, alphabet=sigma)), "random")
         elif r < 0.8:
